@@ -50,6 +50,7 @@ DS_DEFAULTS = {
     "options": None,  # pre-set options P
     "default_options": None,  # default options D
     "abstract": False,
+    "factory": "single",  # 'single': dataset(body, **kw) | 'chain': one factory call per keyword / effect, then the body
 }
 
 
